@@ -216,3 +216,24 @@ impl Obs {
         if self.ok { "ok".into() } else { format!("E{}/{}", self.errno.unwrap_or(-1), self.kind.clone().unwrap_or_default()) }
     }
 }
+
+
+/// Path strings travel as JSON (UTF-8). Bytes that are not valid UTF-8 are carried as private-use characters U+E000+byte
+/// (`enc_bytes`), and turned back into the raw byte wherever a string becomes a path (`dec_path`). Ordinary text is unchanged.
+pub fn dec_path(s: &str) -> Vec<u8> {
+    let mut v = Vec::with_capacity(s.len());
+    for ch in s.chars() {
+        let c = ch as u32;
+        if (0xE000..=0xE0FF).contains(&c) { v.push((c - 0xE000) as u8); } else { let mut b = [0u8; 4]; v.extend_from_slice(ch.encode_utf8(&mut b).as_bytes()); }
+    }
+    v
+}
+
+pub fn enc_bytes(b: &[u8]) -> String {
+    let mut out = String::with_capacity(b.len());
+    for chunk in b.utf8_chunks() {
+        out.push_str(chunk.valid());
+        for byte in chunk.invalid() { out.push(char::from_u32(0xE000 + *byte as u32).unwrap()); }
+    }
+    out
+}
